@@ -38,7 +38,9 @@ func verifIPCPAckSent(frames [][]byte, id uint16) bool {
 }
 
 // One inductive step: two sessions (owners O1, O2) in arbitrary states satisfying
-//   Inv: (IPCP negotiation | Established | has a client address) => authenticated,
+//
+//	Inv: (IPCP negotiation | Established | has a client address) => authenticated,
+//
 // one arbitrary frame from O1, O2 or a foreign MAC; RADIUS (when configured) answers accept/reject/error.
 func VerifC04_Step() {
 	s, sock := verifServer()
